@@ -278,7 +278,9 @@ public:
   virtual void actOnDefaultDecl(ArrayRef<Token> nameToks) override {
     // Resolve all of the inputs and outputs.
     for (const auto& nameTok: nameToks) {
-      StringRef name(nameTok.start, nameTok.length);
+      // Evaluate the token string, like the paths of a "build" declaration.
+      SmallString<256> name;
+      evalString(nameTok, getCurrentScope(), name);
       Node* node = manifest->findNode(workingDirectory, name);
 
       if (node == nullptr) {
